@@ -248,7 +248,7 @@ prop("C01",
       r_data.rule_counter, r_data.rule_null_flat, r_data.rule_read_subs, r_si.rule_compare, r_num.rule_numlit,
       r_data.rule_data_format, r_data.rule_wrap_consistent, r_wl.rule_ord_table, r_wl.rule_key_norm, r_sec.rule_section_type,
       r_lp.rule_write_no_state, r_data.rule_options_readonly, r_sec.rule_scan, r_lp.rule_views, r_num.rule_numlit_complete,
-      r_sec.rule_line_model, r_wl.rule_loop_closures],
+      r_sec.rule_line_model, r_wl.rule_loop_closures, r_data.rule_engine_select],
      "Write->read pairing clauses: lasio's own wrapped output is re-read with the declared curve count, never the sniffed "
      "per-line count (DATA.WRAP-COUNT, explicit-state search under WRAP == YES); the writer's TextWrapper has "
      "width=data_width, break_long_words=False, break_on_hyphens=False, so lines break only at the blanks between values "
@@ -350,7 +350,7 @@ prop("C12",
       r_wl.rule_measure, r_wl.rule_template, r_num.rule_curve_raw, r_hdrt.rule_steer_lookup,
       r_data.rule_wrap_consistent, r_data.rule_wrap_tokens, r_data.rule_orient, r_data.rule_reshape, r_data.rule_wrap_count,
       r_lp.rule_write_no_state, r_si.rule_pk_rebuild, r_data.rule_options_readonly, r_wl.rule_version_consistency,
-      r_data.rule_null_write, r_data.rule_data_format, r_data.rule_subs_source, r_hdrt.rule_parser_stateless, r_wl.rule_loop_closures],
+      r_data.rule_null_write, r_data.rule_data_format, r_data.rule_subs_source, r_hdrt.rule_parser_stateless, r_wl.rule_loop_closures, r_data.rule_engine_select],
      "Order-table agreement: the folded defaults.ORDER_DEFINITIONS has every version the writer admits, all four "
      "sections per version, well-formed (order, mnemonics) exceptions, 1.x ~Well = descr:value except STRT/STOP/STEP/NULL "
      "and 2.x/3.0 = value:descr throughout; reader (SectionParser.__init__) and writer (get_section_order_function) "
